@@ -96,12 +96,12 @@ type example struct {
 
 type corruptResult struct {
 	Flips, Detected, Identical, Undetected, Panics, SkippedHuge, ExecutedHuge int64
-	UndetectedByField                                                          map[string]int64
-	ByCodec                                                                    map[string]int64
-	examples                                                                   map[string]*example
-	Examples                                                                   map[string]*example
-	Streams                                                                    int64
-	NextPos                                                                    int
+	UndetectedByField                                                         map[string]int64
+	ByCodec                                                                   map[string]int64
+	examples                                                                  map[string]*example
+	Examples                                                                  map[string]*example
+	Streams                                                                   int64
+	NextPos                                                                   int
 }
 
 func newCorruptResult() *corruptResult {
@@ -352,13 +352,16 @@ func corruptChild(args []string) int {
 		// no deliberately huge lengths, only the resident-set guard below
 		hugeBudget = [2]int{0, 0}
 	} else {
-		lim := syscall.Rlimit{Cur: 2 << 30, Max: 2 << 30}
+		// room for the message decoder's own 512 MB cap (an untouched allocation
+		// costs address space, not memory), nothing like the terabytes a corrupted
+		// msgappv2 length asks for
+		lim := syscall.Rlimit{Cur: 4 << 30, Max: 4 << 30}
 		syscall.Setrlimit(syscall.RLIMIT_AS, &lim)
 	}
 	go func() {
 		for {
 			time.Sleep(100 * time.Millisecond)
-			if r := rssBytes(); r > 3<<30 {
+			if r := rssBytes(); r > 1536<<20 {
 				fmt.Fprintf(os.Stderr, "codeclab-corrupt: resident set %d MiB exceeds the guard: out of memory\n", r>>20)
 				os.Exit(3)
 			}
